@@ -104,6 +104,11 @@ def real_patches(rng, n):
             (d / "b" / "src" / "x.rs.d").mkdir()
             for nm in names:
                 base = [f"line {i} of {nm}" for i in range(1, rng.randint(3, 14))]
+                if k % 2 == 0:
+                    # blank lines: as context they are printed as ` ` or, by
+                    # --suppress-blank-empty (git: diff.suppressBlankEmpty), as an EMPTY line
+                    for _ in range(rng.randint(1, 4)):
+                        base.insert(rng.randrange(len(base) + 1), "")
                 new = list(base)
                 for _ in range(rng.randint(0, 3)):
                     op = rng.choice(["ins", "del", "rep", "ins_first", "ins_last"])
@@ -124,7 +129,8 @@ def real_patches(rng, n):
             if rng.random() < 0.3:
                 (d / "b" / "src" / "brand_new.rs").write_text("fn n() {}\n")
             ctx = rng.randint(0, 3)
-            r = subprocess.run(["diff", "-r", "-N", f"-U{ctx}", "a", "b"], cwd=d,
+            sbe = ["--suppress-blank-empty"] if k % 4 == 0 else []
+            r = subprocess.run(["diff", "-r", "-N", f"-U{ctx}"] + sbe + ["a", "b"], cwd=d,
                                capture_output=True, text=True)
             text = r.stdout
         flt = sorted(FILTER_RE)[k % len(FILTER_RE)] if k % 2 else "rs"
@@ -155,7 +161,7 @@ def real_patches(rng, n):
                 remain_old, remain_new = oc, nc
                 if cur and re.fullmatch(FILTER_RE[flt], cur) and nc > 0:
                     exp.append([cur, ns, ns + nc - 1])
-        out.append({"text": text, "p": 1, "flt": flt, "exp": exp, "tag": f"diff-U{ctx}"})
+        out.append({"text": text, "p": 1, "flt": flt, "exp": exp, "tag": f"diff-U{ctx}" + ("-sbe" if sbe else "")})
     return out
 
 
